@@ -39,7 +39,13 @@
    say: the trace of memory events of EVERY run of the labelled model (all thread counts,
    programs, schedules; prefilled queues; timer events; both store orders of onTicker) has
    no happens-before race.  c18_*_model_conflicts_ordered is the same statement in positive
-   form: every conflicting pair of such a trace is ordered by happens-before. *)
+   form: every conflicting pair of such a trace is ordered by happens-before.
+   c18_*_labels_match_sites: the synchronisation event a labelled step emits is the operation
+   named by the yield site the step starts from (the site sequence is what C01/C02, C16, C03
+   compare with the running code at every step).  c18_queue_pop_clear_refuted,
+   c18_waitclose_load_needed, c18_wheel_store_release_needed: a faulty variant of Pop races in
+   the same analysis; removing the one synchronisation event an ordering rests on makes a
+   race-free run racy. *)
 From Coq Require Import String.
 From Got Require Import Base Race RaceProofs RaceInst RaceHB RaceHBProofs RaceMonLemmas.
 From Got Require Import Queue QueueProofs RaceQueue RaceQueueProofs.
@@ -311,3 +317,79 @@ Proof.
   - apply (rm_conflict_intro _ 7 26 0 2 (RWrite 2) (RRead 2) 2); try reflexivity; [discriminate|left; reflexivity].
   - apply (rm_hb_chain _ 7 8 24 26 0 2 (RWrite 2) (RRel 2) (RAcq 2) (RRead 2) 2); try reflexivity; lia.
 Qed.
+
+(* ---- the analysis discriminates ----
+   c18_queue_pop_clear_refuted: the labelled runs of the variant of Pop whose winner clears the
+   new dummy's value (next.value = nil after the head CAS: a plain write) DO race - two
+   poppers, both past their read of next.value when the first head CAS succeeds.
+   c18_waitclose_load_needed / c18_wheel_store_release_needed: in concrete runs of the models as
+   they are, deleting the one synchronisation event the ordering rests on (C()'s atomic load
+   of wc.state; the release of onTicker's StorePointer) turns the race-free trace into a
+   racy one. *)
+Theorem c18_queue_pop_clear_refuted :
+  hb_race (rq_trace_clear (q_init [5%Z; 6%Z] [[QPop]; [QPop]]) [0;0;0;0;0; 1;1;1;1;1; 0]).
+Proof. exact rq_pop_clear_refuted. Qed.
+Print Assumptions c18_queue_pop_clear_refuted.
+
+Theorem c18_waitclose_load_needed :
+  let tr := rw_trace (wc_init [[OpC]; [OpClose (Cb ONil true)]; [OpWait]])
+                     (map IRun [0;0;0;0; 1;1;1; 2;2; 1;1; 2;2;2; 0;0]) in
+  nth_error tr 9 = Some (2, RAcq rw_state) /\ hb_race (firstn 9 tr ++ skipn 10 tr).
+Proof. exact rw_without_load_refuted. Qed.
+Print Assumptions c18_waitclose_load_needed.
+
+Theorem c18_wheel_store_release_needed :
+  let tr := rwh_trace WOrig (wh_init 10%Z 2 1 [[WhNew 10%Z]]) [1;1; 0;0;0;0; 1] in
+  nth_error tr 8 = Some (0, RWrite 2) /\ nth_error tr 9 = Some (0, RRel (rwh_slot 0)) /\
+  nth_error tr 11 = Some (1, RRead 2) /\
+  ~ hb_race tr /\ hb_race (firstn 9 tr ++ skipn 10 tr).
+Proof. exact rwh_without_store_release_refuted. Qed.
+Print Assumptions c18_wheel_store_release_needed.
+
+(* ---- the labelling agrees with the yield sites ----
+   C01/C02 (queue), C16 (WaitClose) and C03 (wheel) check at EVERY step of every executed
+   schedule that the real goroutine is parked at the yield site the model predicts (q_site_pc /
+   wc_site_pc / wh_site; the sites sit directly in front of the atomic operations and around
+   Lock/Unlock in the source).  The event labelling is consistent with that classification:
+   the synchronisation event a labelled step emits is the operation its site names
+   (rm_sync e = e is a release/acquire event, i.e. not a plain access). *)
+Theorem c18_queue_labels_match_sites :
+  forall (s : q_state) (g : rq_ghost) (i : nat) (pc : q_pc) (todo : list q_op),
+    match q_site_pc pc with
+    | 0 => Forall (fun e => ~ rm_sync e) (fst (rq_step_pc s g i pc todo))
+    | 1 => exists o rest, fst (rq_step_pc s g i pc todo) = RAcq o :: rest
+                          /\ Forall (fun e => ~ rm_sync e) rest
+    | _ => exists b o, fst (rq_step_pc s g i pc todo) = [rq_cas b o]
+    end.
+Proof. exact rq_sites. Qed.
+Print Assumptions c18_queue_labels_match_sites.
+
+Theorem c18_waitclose_labels_match_sites :
+  forall (g : wc_shared) (pc : wc_pc),
+    match wc_site_pc pc with
+    | 1 => exists rest, rw_step_pc g false pc = RAcq rw_state :: rest
+                        /\ Forall (fun e => ~ rm_sync e) rest
+    | 2 => rw_step_pc g false pc = [] \/ rw_step_pc g false pc = [RAcq rw_mutex]
+    | 3 => exists rest, rw_step_pc g false pc = RRead rw_xstate :: rest
+                        /\ Forall (fun e => forall o, ~ hb_is_acq e o) rest
+    | 5 => rw_step_pc g false pc = rw_store_unlock
+    | _ => Forall (fun e => ~ rm_sync e) (rw_step_pc g false pc)
+    end.
+Proof. exact rw_sites. Qed.
+Print Assumptions c18_waitclose_labels_match_sites.
+
+Theorem c18_wheel_labels_match_sites :
+  forall (o : wh_order) (s : wh_state) (tid : nat),
+    match wh_site o s tid with
+    | 3 | 5 | 6 => exists rest, rwh_step o s tid = RAcq rwh_pos :: rest
+                                /\ Forall (fun e => ~ rm_sync e) rest
+    | 4 | 7 => rwh_step o s tid = [] \/
+               exists j rest, rwh_step o s tid = RAcq (rwh_slot j) :: rest
+                              /\ Forall (fun e => ~ rm_sync e) rest
+    | 8 => rwh_step o s tid = [RRel rwh_pos]
+    | 9 => exists lp, rwh_step o s tid = rwh_store_slot s lp
+    | 10 => exists last, rwh_step o s tid = [RRead last]
+    | _ => True
+    end.
+Proof. exact rwh_sites. Qed.
+Print Assumptions c18_wheel_labels_match_sites.
